@@ -44,6 +44,7 @@ func init() {
 			{ID: "C09-R18", Title: "shared state is enumerated", Floor: 1, Run: sharedStateIsEnumerated},
 			{ID: "C09-R19", Title: "tables that Clone snapshots are written under the clone lock", Floor: 3, Run: cloneTablesAreWrittenUnderTheCloneLock},
 			{ID: "C09-R20", Title: "slices the host hands in are copied before they are written in", Floor: 2, Run: hostSlicesAreCopiedBeforeTheyAreWrittenIn},
+			{ID: "C09-R21", Title: "the compiler does not write into the syntax tree (shared with C05-R13)", Floor: 1, Run: theCompilerDoesNotWriteIntoTheSyntaxTree},
 		},
 	})
 }
